@@ -6,6 +6,7 @@ import Walrus.Driver.CodeD
 import Walrus.Driver.OffsetsD
 import Walrus.Driver.DwarfD
 import Walrus.Driver.ModuleD
+import Walrus.Driver.MapsD
 
 open Walrus.Driver
 
@@ -19,6 +20,7 @@ def dispatch (line : String) : String :=
   | "offsets" :: rest => handleOffsets rest
   | "dwarf" :: rest => handleDwarf rest
   | "module" :: rest => handleModule rest
+  | "maps" :: rest => handleMaps rest
   | _ => "bad-request"
 
 partial def loop (h : IO.FS.Stream) (out : IO.FS.Stream) : IO Unit := do
